@@ -129,8 +129,11 @@ def parser_vocab(repo):
     f = next(x for x in cls.body if isinstance(x, ast.FunctionDef) and x.name == '_parse_ctl_line')
     accepted, ignored, eq = set(), set(), set()
     for n in ast.walk(f):
-        if isinstance(n, ast.Compare) and isinstance(n.left, ast.Name) and n.left.id == 'first_char' and len(n.ops) == 1 and isinstance(n.comparators[0], ast.Constant):
-            v = n.comparators[0].value
+        if isinstance(n, ast.Compare) and isinstance(n.left, ast.Name) and n.left.id == 'first_char' and len(n.ops) == 1:
+            c0 = n.comparators[0]
+            v = c0.value if isinstance(c0, ast.Constant) else repo.const('ctlparser', c0.id) if isinstance(c0, ast.Name) else None
+            if not isinstance(v, str):
+                continue
             if isinstance(n.ops[0], ast.In):
                 accepted |= set(v)
             elif isinstance(n.ops[0], ast.NotIn):
@@ -140,8 +143,11 @@ def parser_vocab(repo):
     g = next(x for x in cls.body if isinstance(x, ast.FunctionDef) and x.name == 'parse_ctls')
     dispatch, with_lengths = set(), set()
     for n in ast.walk(g):
-        if isinstance(n, ast.Compare) and isinstance(n.left, ast.Name) and n.left.id == 'ctl' and len(n.ops) == 1 and isinstance(n.comparators[0], ast.Constant) and isinstance(n.comparators[0].value, str):
-            v = n.comparators[0].value
+        if isinstance(n, ast.Compare) and isinstance(n.left, ast.Name) and n.left.id == 'ctl' and len(n.ops) == 1:
+            c0 = n.comparators[0]
+            v = c0.value if isinstance(c0, ast.Constant) else repo.const('ctlparser', c0.id) if isinstance(c0, ast.Name) else None
+            if not isinstance(v, str):
+                continue
             if isinstance(n.ops[0], ast.Eq):
                 dispatch.add(v)
             elif isinstance(n.ops[0], ast.In):
